@@ -208,6 +208,7 @@ func NewWorld(seed uint64) *World {
 	if pendingReplay != nil {
 		w.Replay, w.Tape = true, *pendingReplay
 	}
+	stack.VerifResetWakerOrder()
 	verifhook.Yield = w.yield
 	clockYield = func() { w.yield("clock.now") }
 	crng := sim.NewRand(sim.Mix(seed ^ 0xc400))
@@ -269,6 +270,9 @@ func (w *World) Tracef(format string, a ...interface{}) {
 // yield is the pre-emption hook: with the run's probability (or as the tape
 // says when replaying) the caller moves behind every other runnable goroutine.
 func (w *World) yield(site string) {
+	if os.Getenv("VERIF_YTRACE") == "sites" {
+		YTrace = append(YTrace, fmt.Sprintf("%s g%d t=%v", site, sim.Goid(), time.Since(w.T0)))
+	}
 	if w.YieldP <= 0 {
 		// (also when replaying: the tape holds one entry per schedule point met while the run's
 		// probability was in force - points met before that, while the world is set up, have none)
